@@ -404,7 +404,8 @@ def task_rsa(cell, p, s, ref, keyname, quick, maxparts):
             continue
         hm, mgf = PSS_PARAM[hn]
         maxsalt = klen - hl - 2
-        for salt in ((hl,) if quick else (0, hl, maxsalt)):
+        # a salt longer than emLen - hLen - 2 cannot be encoded (RSA-1024 with SHA-512 and a 64-byte salt): refusing it is right, so it is not a cell
+        for salt in [x for x in ((hl,) if quick else sorted({0, hl, maxsalt})) if 0 <= x <= maxsalt]:
             pp = pss_params(hm, mgf, salt)
             pad = "EMSA4(%s,MGF1,%d)" % (bn, salt)
             sig_roundtrip(cell, p, s, ref, "%s-rsa-pss-salt%s|%s" % (hn, "0" if salt == 0 else ("hlen" if salt == hl else "max"), keyname),
